@@ -33,6 +33,12 @@ MANIFEST = dict(
 )
 
 
+def _split_keeps_initialisation_order(F, rep):
+    """splitting a program over files must not change when its globals are initialised: every mention is a dependency edge"""
+    import c11
+    c11.dependency_visit(F, rep)
+
+
 def run(F, rep, tier):
     rep.explanation = EXPLANATION
     rep.undecided = UNDECIDED
@@ -44,6 +50,7 @@ def run(F, rep, tier):
     c05.start_rules(F, rep)
     import_pass(F, rep)
     chained_namespace(F, rep)
+    _split_keeps_initialisation_order(F, rep)
 
 
 def _tree_roles(fn):
